@@ -239,6 +239,9 @@ func (vc *VC) elemInjective(fn, ek string) {
 	vc.declareFun(ia, []string{"Int"}, "Int")
 	vc.declareFun(ii, []string{"Int"}, "Int")
 	vc.decls = append(vc.decls, "(assert (forall ((a!e Int) (i!e Int)) (! (and (= ("+ia+" ("+fn+" a!e i!e)) a!e) (= ("+ii+" ("+fn+" a!e i!e)) i!e)) :pattern (("+fn+" a!e i!e)))))")
+	// element objects are no separately allocated objects
+	vc.declareFun("is_elem_obj", []string{"Int"}, "Bool")
+	vc.decls = append(vc.decls, "(assert (forall ((a!e Int) (i!e Int)) (! (is_elem_obj ("+fn+" a!e i!e)) :pattern (("+fn+" a!e i!e)))))")
 	// an element object exists exactly as long as its array (allocation status on entry)
 	a0 := vc.famName(allocKey, 0)
 	vc.declare(a0, allocSort)
@@ -432,6 +435,10 @@ func (vc *VC) newAlloc(st *State, t types.Type, escaped bool) *allocInfo {
 		// ... and from the addresses of parts of other objects
 		vc.assume(st, sNot(sEq(r, t)))
 	}
+	// ... and it is not an element object of any array (element objects elem(a, i) are a
+	// namespace of their own: see elemInjective)
+	vc.declareFun("is_elem_obj", []string{"Int"}, "Bool")
+	vc.assumeAlways(sNot(sApp("is_elem_obj", r)))
 	// nor is it an element of any map (every reference stored anywhere was allocated before)
 	for _, mt := range vc.eng.refMaps {
 		m := mt.Underlying().(*types.Map)
